@@ -106,6 +106,15 @@ struct btls_socket
 	    int ssl_condition;
 	    int ssl_wants;
 
+	    /* Application data handed to SSL_write() in a call which
+	       could not be completed. OpenSSL may already have
+	       consumed it (in part or in full), and requires the very
+	       same data to be presented again. Thus, this data is
+	       accepted, and retained, by XCM. */
+	    char *pending_write;
+	    size_t pending_write_len;
+	    int pending_write_wants;
+
 	    char raddr[XCM_ADDR_MAX+1];
 
 	    int64_t cnts[XCM_TP_NUM_MESSAGING_CNTS];
@@ -400,6 +409,10 @@ static void conn_deinit(struct xcm_socket *s, bool owner)
     struct btls_socket *bts = TOBTLS(s);
 
     SSL_free(bts->conn.ssl);
+
+    ut_free(bts->conn.pending_write);
+    bts->conn.pending_write = NULL;
+    bts->conn.pending_write_len = 0;
 
     if (owner)
 	xpoll_bell_reg_del(s->xpoll, bts->conn.bell_reg_id);
@@ -1016,6 +1029,51 @@ err_deinit:
     return -1;
 }
 
+/* A TLS record's worth of data */
+#define MAX_PENDING_WRITE (16384)
+
+static int try_flush_pending_write(struct xcm_socket *s)
+{
+    struct btls_socket *bts = TOBTLS(s);
+
+    while (bts->conn.pending_write_len > 0) {
+	bts->conn.ssl_condition = 0;
+	bts->conn.ssl_wants = 0;
+
+	UT_SAVE_ERRNO;
+	int rc = SSL_write(bts->conn.ssl, bts->conn.pending_write,
+			   bts->conn.pending_write_len);
+	UT_RESTORE_ERRNO(write_errno);
+
+	if (rc > 0) {
+	    LOG_LOWER_DELIVERED_PART(s, rc);
+	    XCM_TP_CNT_BYTES_INC(bts->conn.cnts, to_lower, rc);
+
+	    bts->conn.pending_write_len -= rc;
+	    memmove(bts->conn.pending_write, bts->conn.pending_write + rc,
+		    bts->conn.pending_write_len);
+
+	    continue;
+	}
+
+	if (rc == 0)
+	    process_ssl_close(s);
+	else
+	    process_ssl_event(s, XCM_SO_SENDABLE, rc, write_errno);
+
+	TP_RET_ERR_IF_STATE(s, bts, conn_state_closed, EPIPE);
+
+	TP_RET_ERR_IF_STATE(s, bts, conn_state_bad, bts->conn.badness_reason);
+
+	bts->conn.pending_write_wants = bts->conn.ssl_wants;
+
+	errno = EAGAIN;
+	return -1;
+    }
+
+    return 0;
+}
+
 static int btls_send(struct xcm_socket *__restrict s,
 		     const void *__restrict buf, size_t len)
 {
@@ -1035,6 +1093,9 @@ static int btls_send(struct xcm_socket *__restrict s,
 
     if (len == 0)
 	return 0;
+
+    if (try_flush_pending_write(s) < 0)
+	return -1;
 
     bts->conn.ssl_condition = 0;
     bts->conn.ssl_wants = 0;
@@ -1062,9 +1123,22 @@ static int btls_send(struct xcm_socket *__restrict s,
 
     TP_RET_ERR_IF_STATE(s, bts, conn_state_bad, bts->conn.badness_reason);
 
-    errno = EAGAIN;
+    /* SSL_write() could not complete, but may have consumed up to a
+       record's worth of the user's data, and insists on being handed
+       the same data again. The application is free to come back with
+       something else, so XCM takes over this part of the buffer. */
 
-    return -1;
+    size_t accepted = UT_MIN(len, MAX_PENDING_WRITE);
+
+    bts->conn.pending_write = ut_realloc(bts->conn.pending_write, accepted);
+    memcpy(bts->conn.pending_write, buf, accepted);
+    bts->conn.pending_write_len = accepted;
+    bts->conn.pending_write_wants = bts->conn.ssl_wants;
+
+    LOG_SEND_ACCEPTED(s, buf, accepted);
+    XCM_TP_CNT_BYTES_INC(bts->conn.cnts, from_app, accepted);
+
+    return accepted;
 }
 
 static int btls_receive(struct xcm_socket *__restrict s, void *__restrict buf,
@@ -1083,6 +1157,14 @@ static int btls_receive(struct xcm_socket *__restrict s, void *__restrict buf,
     TP_RET_IF_STATE(bts, conn_state_closed, 0);
 
     TP_RET_ERR_UNLESS_STATE(s, bts, conn_state_ready, EAGAIN);
+
+    /* an application only receiving must not leave retained output
+       behind */
+    if (try_flush_pending_write(s) < 0) {
+	TP_RET_ERR_IF_STATE(s, bts, conn_state_bad, bts->conn.badness_reason);
+
+	TP_RET_IF_STATE(bts, conn_state_closed, 0);
+    }
 
     bts->conn.ssl_condition = 0;
     bts->conn.ssl_wants = 0;
@@ -1169,6 +1251,14 @@ static void conn_update(struct xcm_socket *s)
 	break;
     }
 
+    /* retained output is to be flushed, regardless of what the
+       application is waiting for */
+    if (bts->conn.state == conn_state_ready &&
+	bts->conn.pending_write_len > 0)
+	bts->btcp_socket->condition |=
+	    (bts->conn.pending_write_wants != 0 ?
+	     bts->conn.pending_write_wants : XCM_SO_SENDABLE);
+
     if (ready) {
 	xpoll_bell_reg_mod(s->xpoll, bts->conn.bell_reg_id, true);
 	return;
@@ -1222,6 +1312,8 @@ static int btls_finish(struct xcm_socket *s)
 	LOG_FINISH_SAY_BUSY(s, bts->conn.state);
 	return -1;
     case conn_state_ready:
+	if (try_flush_pending_write(s) < 0)
+	    return -1;
 	return xcm_tp_socket_finish(bts->btcp_socket);
     case conn_state_bad:
 	errno = bts->conn.badness_reason;
